@@ -1416,8 +1416,18 @@ impl World for NfsThreadsWorld {
         let nthreads = rng.range(2, 4);
         knobs.insert("threads".into(), nthreads);
         for t in 0..nthreads {
+            // At most one `now = None` entry point (scan) per thread: a second one
+            // within 100 ms of real time would be throttled by the module's
+            // Instant-based rate limit, which the simulator does not own.
+            let mut scanned = false;
             for _ in 0..rng.range(1, 4) {
-                let kind = *rng.pick(&[3u64, 3, 4, 5, 5, 6, 7, 7]);
+                let mut kind = *rng.pick(&[3u64, 3, 4, 5, 5, 6, 7, 7]);
+                if kind == 4 {
+                    if scanned {
+                        kind = 6;
+                    }
+                    scanned = true;
+                }
                 ops.push(Op::new("call", [t, kind, rng.below(36), 0]));
             }
         }
